@@ -53,11 +53,12 @@ def conclude(agg):
 
 # ---- transformation + comparison ------------------------------------------------------------------------
 
-def apply_ops(c, ops, libs, ctx):
+def apply_ops(c, ops, libs, ctx, case=None):
     import kyupy.techlib as T
     removed_nodes = False
     for op in ops:
         before = list(c.nodes)
+        names_before = [n.name for n in c.s_nodes]
         ctx.count('op/' + op.split(':')[0])
         if op == 'copy':
             c = c.copy()
@@ -70,6 +71,12 @@ def apply_ops(c, ops, libs, ctx):
                 c.resolve_tlib_cells(getattr(T, l))
         if op not in ('copy', 'pickle') and any(n.circuit is None for n in before):
             removed_nodes = True       # Node.remove() ran: the documented swap-with-last deletion renumbered some node
+        if op in ('copy', 'pickle'):
+            # these steps remove nothing: the open finding (order permuted by node removal) can never explain a change made here
+            ctx.count('copy_pickle_order_checks')
+            names_after = [n.name for n in c.s_nodes]
+            if names_after != names_before and case is not None:
+                ctx.violation('port-state-order', f'{op} changed the names/order of ports and state elements from {names_before} to {names_after}', case, sig='copy-order')
     return c, removed_nodes
 
 
@@ -161,7 +168,7 @@ def lib_case(ctx, libname, cell, cd, conn_in, conn_out, ops):
     ok = False
     with ctx.guard('transformation-raises', case):
         c, flat = H.build_host(hnet, [libname])
-        c2, removed = apply_ops(c, ops, [libname], ctx)
+        c2, removed = apply_ops(c, ops, [libname], ctx, case)
 
         def rerun():
             c3, _ = H.build_host(hnet, [libname])
@@ -367,7 +374,7 @@ def hier_check(ctx, case, idx):
         # state elements are listed in node-index order: the description's order follows the creation order
         pos = {hnet['items'][k]['name']: i for i, k in enumerate(case.get('node_order') or range(len(hnet['items'])))}
         flat['ffs'].sort(key=lambda ff: pos[ff['name']])
-        c2, removed = apply_ops(c, ops, [libname], ctx)
+        c2, removed = apply_ops(c, ops, [libname], ctx, case)
         rerun = None
         compare(ctx, case, c2, flat, f'hierarchical circuit ops={ops} lib={libname} items={[(it.get("cell") or it["kind"]) for it in hnet["items"]]}', removed, rerun)
     ctx.case(case, True, key=case)
